@@ -16,6 +16,9 @@ Inductive c18_case :=
    and what a follower's List through it returns ([mid_list] = None on error, Some has_k1 otherwise, k1 having been
    committed by the old leader before).  Afterwards: the revision of its first 200 answer, and whether the
    follower's List then holds k0 and k1. *)
+(* the delayed forwarded transaction (see forward_model): every SetCurrentRevision value on the follower, the header
+   revisions of the two reads, whether the second read held every key the leader had committed *)
+| ForwardCase (w r : N) (sets : list N) (hdr1 hdr2 : N) (complete2 : bool)
 | TakeoverCase (old version : N) (mid_status : option N) (mid_list : option bool) (first_rev : N) (post_complete : bool).
 
 Definition rclass_eqb (a b : rclass) : bool :=
@@ -57,6 +60,9 @@ Definition c18_check (c : c18_case) : bool :=
       && list_eqb pair_eqb (map (fun x => match x with (_, before, v) => (before, v) end) (i_sets s)) sets
   | FollowCase m v r1 r2 sets hdr2 =>
       let '(ss, h) := follow_model r1 r2 in list_eqb N.eqb ss sets && (h =? hdr2)
+  | ForwardCase w r sets hdr1 hdr2 complete2 =>
+      let '(ss, h1, h2) := forward_model w r in
+      list_eqb N.eqb ss sets && (h1 =? hdr1) && (h2 =? hdr2) && complete2
   | TakeoverCase old version mid_status mid_list first_rev post_complete =>
       (* the instant is phase TkInstalling; the first 200 answer is phase TkLeading *)
       opt_eqb N.eqb mid_status (if tk_flag TkInstalling then Some (tk_revision TkInstalling old version) else None)
@@ -123,6 +129,10 @@ Definition c18_oracle (c : c18_case) : option N :=
   | RoleCase k r proxy l obs => role_row_ok k r l obs
   | SchedCase _ _ _ a b sets =>
       ok_if (tobs_fresh a && tobs_fresh b)
+  | ForwardCase w r sets hdr1 hdr2 complete2 =>
+      (* the follower's read revision is only ever set to a revision fetched from the leader (here: r), and a read that
+         began after the leader had committed r is served at >= r with everything committed *)
+      ok_if (forallb (N.eqb r) sets && (r <=? hdr1) && (r <=? hdr2) && complete2)
   | TakeoverCase old version mid_status mid_list first_rev post_complete =>
       (* a node that answers /status as leader has installed the lock version; a follower's read through it fails
          or reflects what the old leader had committed *)
